@@ -237,6 +237,8 @@ func (a *actor) exec(op *Op) *CallRec {
 				}
 			}
 		})
+	case "e.expire":
+		return a.call(op, func(c *CallRec) { c.Err = expireNow(e) })
 	case "e.write":
 		return a.engineWrite(op)
 	case "e.read":
